@@ -4693,3 +4693,15 @@ M('C02', 'notation-binary-value-aliases-caller-bytearray', SS, "        else:  #
 M('C02', 'notation-binary-value-aliases-unless-bytes', SS, "        else:  # pragma: no cover\n            self._value = bytearray(val)\n", "        else:  # pragma: no cover\n            self._value = val if isinstance(val, bytearray) else bytearray(val)\n", 'C02.2')
 T('C02', 'twin-notation-binary-value-slice-copy', SS, "        else:  # pragma: no cover\n            self._value = bytearray(val)\n", "        else:  # pragma: no cover\n            own = val[:]\n            self._value = own\n")
 T('C02', 'twin-notation-binary-value-copy-module', SS, "        else:  # pragma: no cover\n            self._value = bytearray(val)\n", "        else:  # pragma: no cover\n            self._value = bytearray(bytes(val))\n")
+# trailer length: any integer-linear spelling of the length of the covered run (held-out twin C05-ref9); one item left out / counted twice is not
+_TRL = ("        hcontext = bytearray()\n        hcontext.append(self._signature.header.version if not self.embedded else self._signature._sig.header.version)\n        hcontext.append(self.type)\n        hcontext.append(self.key_algorithm)\n        hcontext.append(self.hash_algorithm)\n"
+        "        hcontext += self._signature.subpackets.__hashbytearray__()\n        hlen = len(hcontext)\n        _data += hcontext\n        _data += b'\\x04\\xff'\n        _data += self.int_to_bytes(hlen, 4)\n")
+_TRL_NEW = ("        sigpkt = self._signature._sig if self.embedded else self._signature\n        fixed = bytearray((sigpkt.header.version, self.type, self.key_algorithm, self.hash_algorithm))\n        hashed = self._signature.subpackets.__hashbytearray__()\n"
+            "        _data += fixed\n        _data += hashed\n        _data += b'\\x04\\xff' + self.int_to_bytes(%s, 4)\n")
+for _p in ('C01', 'C02', 'C05', 'C11'):
+    T(_p, 'twin-trailer-length-sum-of-subruns', PGP, _TRL, _TRL_NEW % 'len(hashed) + len(fixed)')
+    T(_p, 'twin-trailer-length-fixed-first-plus-constant-split', PGP, _TRL, _TRL_NEW % '2 + len(hashed) + 2')
+for _p, _r in (('C02', 'C02.1'), ('C05', 'C05.4')):
+    M(_p, 'trailer-length-sum-leaves-one-octet-out', PGP, _TRL, _TRL_NEW % 'len(hashed) + len(fixed[:3])', _r)
+    M(_p, 'trailer-length-sum-counts-fixed-twice', PGP, _TRL, _TRL_NEW % 'len(fixed) + len(hashed) + len(fixed)', _r)
+    M(_p, 'trailer-length-sum-omits-hashed-area', PGP, _TRL, _TRL_NEW % 'len(fixed) + 2', _r)
